@@ -239,6 +239,8 @@ type AlignCase struct {
 	M      MatSpec      `json:"m"`
 	Local  bool         `json:"local"`
 	Mutate *MatMutation `json:"mutate,omitempty"`
+	// SameSlice: the very same slice is passed as both sequences (B is ignored and taken to be A).
+	SameSlice bool `json:"same_slice,omitempty"`
 }
 
 func genMatMutation(t *rapid.T, s MatSpec) *MatMutation {
@@ -308,6 +310,9 @@ func runAlign(c AlignCase, m align.SubstitutionMatrix) (alignResult, error) {
 	// end of a would corrupt b.
 	ar := newArena(c.A, []byte("|"), c.B)
 	a, b := ar.field(0), ar.field(2)
+	if c.SameSlice {
+		b = a
+	}
 	nkeys := len(m)
 	var res alignResult
 	var steps []align.Step
